@@ -17,14 +17,16 @@ def rchunkSizes (n c : Nat) : List Nat :=
   (if n % c = 0 then [] else [n % c]) ++ List.replicate (n / c) c
 
 def decLayout : Layout := fun bs order po =>
-  if bs / 2 ^ po = 0 then .error decZeroPartitionLen
+  if decLayoutRfc && !(bs % 2 ^ po == 0 && bs / 2 ^ po > order) then .error (.err "InvalidPartitionOrder")
+  else if bs / 2 ^ po = 0 then .error decZeroPartitionLen
   else if (rchunkSizes (bs - order) (bs / 2 ^ po)).length ≠ 2 ^ po then .error (.err "InvalidPartitionOrder")
   else .ok (rchunkSizes (bs - order) (bs / 2 ^ po))
 
-/-- `read_partitions` of the structural parser (stream.rs):
-    `(block_size / count).checked_sub(if p == 0 { order } else { 0 })` -/
+/-- `read_partitions` of the structural parser (stream.rs): partition `p` holds
+    `block_size / count − (if p == 0 { order } else { 0 })` residuals -/
 def structLayout : Layout := fun bs order po =>
-  if bs / 2 ^ po < order then .error (.err "InvalidPartitionOrder")
+  if structLayoutRfc && !(bs % 2 ^ po == 0 && bs / 2 ^ po > order) then .error (.err "InvalidPartitionOrder")
+  else if bs / 2 ^ po < order then .error (.err "InvalidPartitionOrder")
   else .ok ((bs / 2 ^ po - order) :: List.replicate (2 ^ po - 1) (bs / 2 ^ po))
 
 /-! ### sample arithmetic — assembled from the kernels regenerated from decode.rs (`Gen/Kernels`) -/
